@@ -931,6 +931,15 @@ impl<const N: usize, T> CircularBuffer<N, T> {
 
         let _left = Dropper(left);
         let _right = Dropper(right);
+
+        // Shrink the buffer now, before the droppers go out of scope and run the destructors, so
+        // that no element is dropped twice if one of the destructors panics.
+        if range.end == self.size {
+            self.size = range.start;
+        } else {
+            self.start = drop_to;
+            self.size -= range.end;
+        }
     }
 
     /// Returns a reference to the back element, or `None` if the buffer is empty.
@@ -1834,7 +1843,6 @@ impl<const N: usize, T> CircularBuffer<N, T> {
         // initialized. The `size` of the buffer is shrunk before dropping, so no value will be
         // dropped twice in case of panics.
         unsafe { self.drop_range(drop_range) };
-        self.size = len;
     }
 
     /// Shortens the buffer, keeping only the back `len` elements and dropping the rest.
@@ -1869,8 +1877,6 @@ impl<const N: usize, T> CircularBuffer<N, T> {
         // initialized. The `start` of the buffer is shrunk before dropping, so no value will be
         // dropped twice in case of panics.
         unsafe { self.drop_range(drop_range) };
-        self.start = add_mod(self.start, drop_len, N);
-        self.size = len;
     }
 
     /// Drops all the elements in the buffer.
